@@ -460,3 +460,58 @@ func VerifC10_keptsettings() {
 	vfAssert(fresh == want, "wrapper-method-agrees")
 	vfObserveStr("out", out)
 }
+
+type vfPickyCB struct{ bad string }
+
+type vfPickyErr struct{}
+
+func (vfPickyErr) Error() string { return "picky: do not like this cell" }
+
+func (p vfPickyCB) UpdateProperties(po tabular.PropertyOwner) error {
+	if c, ok := po.(*tabular.Cell); ok && c.String() == p.bad {
+		return vfPickyErr{}
+	}
+	return nil
+}
+
+// VerifC10_pickycallback: a user's render-time cell callback that objects to one cell (returns an
+// error for it) changes nothing about the bytes, and does so alike whether it was registered before or
+// after the table met its text renderer (created by texttable.New, or a core table wrapped later).
+func VerifC10_pickycallback() {
+	when := vfChoice("when", 3)
+	fill := func(t tabular.Table) {
+		t.AddHeaders("name", "value")
+		t.AddRowItems("good", "1")
+		t.AddRowItems("bad", "2")
+	}
+	plain := tabular.New()
+	fill(plain)
+	want, werr := texttable.Render(plain)
+	var t tabular.Table
+	if vfChoice("create", 2) == 0 {
+		t = tabular.New()
+	} else {
+		t = texttable.New()
+	}
+	fill(t)
+	var rerr error
+	switch when {
+	case 0:
+		rerr = t.RegisterPropertyCallback(t, tabular.CB_AT_RENDER, tabular.CB_ON_CELL, vfPickyCB{"bad"})
+	case 1:
+		rerr = t.RegisterPropertyCallback(t, tabular.CB_AT_RENDER_PRECELL, tabular.CB_ON_CELL, vfPickyCB{"bad"})
+	case 2:
+		rerr = t.RegisterPropertyCallback(t, tabular.CB_AT_RENDER_POSTCELL, tabular.CB_ON_CELL, vfPickyCB{"bad"})
+	}
+	vfAssert(rerr == nil, "register-ok")
+	var out string
+	var err error
+	if vfChoice("via", 2) == 0 {
+		out, err = texttable.Render(t)
+	} else {
+		out, err = texttable.Wrap(t).Render()
+	}
+	vfAssert(vfAnd(werr == nil, err == nil), "render-ok")
+	vfAssert(out == want, "same-bytes-whatever-created-or-wraps-it")
+	vfObserveStr("out", out)
+}
